@@ -38,8 +38,15 @@ inductive Atom
   | none
   /-- a `str`; `f` = `float(s)` when that succeeds -/
   | str (s : Sym) (f : Option Rat)
-  /-- a finite `int`/`float` -/
+  /-- a finite `float`, or an `int` that a double holds exactly (then `float(x) == x`) -/
   | num (q : Rat) (isInt : Bool)
+  /-- a Python `int` that no double holds exactly (|n| > 2⁵³), with `fl` = `float(n)` (the integer
+  rounded to the nearest double, ties to even; computed by the harness like `float(str)`) -/
+  | big (n : Int) (fl : Rat)
+  /-- `True` / `False`: an `int` subclass (`float(True) == 1.0`, `True == 1`) -/
+  | bool (b : Bool)
+  /-- a numpy integer scalar (`numpy.int64(n)`), small enough to be exact as a double -/
+  | npint (n : Int)
 deriving DecidableEq, Repr
 
 inductive SeqKind | list | tuple | nda
@@ -71,12 +78,24 @@ def Atom.isNone : Atom → Bool
   | .none => true
   | _ => false
 
-/-- `a == b` between two atoms (`2 == 2.0` is true, a string never equals a number) -/
-def atomEq : Atom → Atom → Bool
+/-- the exact numeric value of a number (Python compares ints, bools and floats by value, exactly) -/
+def Atom.numVal : Atom → Option Rat
+  | .num q _ => some q
+  | .big n _ => some n
+  | .bool b => some (if b then 1 else 0)
+  | .npint n => some n
+  | _ => Option.none
+
+/-- `a == b` between two atoms (`2 == 2.0`, `True == 1` are true; `2**53 + 1 == float(2**53 + 1)` is
+false; a string never equals a number) -/
+def atomEq (a b : Atom) : Bool :=
+  match a, b with
   | .none, .none => true
   | .str s _, .str t _ => s == t
-  | .num p _, .num q _ => p == q
-  | _, _ => false
+  | a, b =>
+    match a.numVal, b.numVal with
+    | some p, some q => p == q
+    | _, _ => false
 
 /-- `tuple(xs) == tuple(ys)` -/
 def atomsEq : List Atom → List Atom → Bool
@@ -102,6 +121,9 @@ def pyLen : PyVal → Except ErrKind Int
 /-- `float(x)` (numpy ≥ 2.4: a 1-d array is a `TypeError` whatever its size) -/
 def pyFloat : PyVal → Except ErrKind Rat
   | .atom (.num q _) => .ok q
+  | .atom (.big _ fl) => .ok fl
+  | .atom (.bool b) => .ok (if b then 1 else 0)
+  | .atom (.npint n) => .ok n
   | .atom (.str _ (some f)) => .ok f
   | .atom (.str _ Option.none) => .error .value
   | .fv n f => .ok (n + f)          -- `FractionValue.__float__`
@@ -210,6 +232,9 @@ be false for the items considered here, and the other branch asserts a list/tupl
 def obtainSeqErr : List Atom → ErrKind
   | [.none] => .type
   | [.num _ _] => .type
+  | [.big _ _] => .type
+  | [.bool _] => .type
+  | [.npint _] => .index                         -- "invalid index to scalar variable"
   | [.str s _] => if (Sym.bytes s).length < 2 then .index else .assertion
   | _ => .assertion
 
